@@ -140,7 +140,7 @@ theorem step_canonical (g0 g : Geo) (d : Data) (hwf : g0.wf) (hinv : Inv g0 g) :
   obtain ⟨hdim, hnv, hvol, hc⟩ := hinv
   obtain ⟨hlen0, hpos, harr⟩ := hwf
   by_cases hl : d.shape.length ≠ g0.numVoxels.length
-  · have : (integrate true g d) = .error .value := by simp [integrate, hnv, hl]
+  · have : (integrate true g d) = .error .other := by simp [integrate, hnv, hl]
     refine ⟨?_, ?_⟩
     · simp only [step, this, canonical]; rw [if_pos hl]
     · simp only [step, this]; exact ⟨hdim, hnv, hvol, hc⟩
@@ -354,5 +354,154 @@ theorem prodL_ratioProd (ns ms : List Nat) (hlen : ns.length = ms.length) (hm : 
       have := ih ms (by simpa using hlen) hm.2
       simp only [prodL, ratioProd]; push_cast
       rw [← this]; field_simp
+
+/-! ### array volumes at integer-factor resolutions, any dimension -/
+
+theorem sumBox_delta (ms : List Nat) : ∀ (P : List Nat) (G : List Nat → Rat), inBox ms P = true →
+    sumBox ms (fun J => if P = J then G J else 0) = G P := by
+  induction ms with
+  | nil =>
+    intro P G h
+    cases P with
+    | nil => simp [sumBox]
+    | cons p ps => simp [inBox] at h
+  | cons m ms ih =>
+    intro P G h
+    cases P with
+    | nil => simp [inBox] at h
+    | cons p ps =>
+      simp only [inBox, Bool.and_eq_true, decide_eq_true_eq] at h
+      simp only [sumBox]
+      have inner : ∀ j, sumBox ms (fun Js => if p :: ps = j :: Js then G (j :: Js) else 0)
+          = if p = j then G (j :: ps) else 0 := by
+        intro j
+        by_cases hj : p = j
+        · subst hj
+          simp only [List.cons.injEq, true_and, if_true]
+          exact ih ps (fun Js => G (p :: Js)) h.2
+        · simp only [List.cons.injEq, hj, false_and, if_false]
+          rw [sumBox_const]; ring
+      simp only [inner]
+      exact sumRange_delta' m p (fun j => G (j :: ps)) h.1
+
+theorem inBox_length : ∀ (s idx : List Nat), inBox s idx = true → idx.length = s.length := by
+  intro s
+  induction s with
+  | nil => intro idx h; cases idx with
+    | nil => rfl
+    | cons a b => simp [inBox] at h
+  | cons n ns ih => intro idx h; cases idx with
+    | nil => simp [inBox] at h
+    | cons a b =>
+      simp only [inBox, Bool.and_eq_true] at h
+      simp [ih b h.2]
+
+theorem inBox_divIdx : ∀ (ms ks i : List Nat), ms.length = ks.length → allPos ks = true →
+    inBox (mulShape ms ks) i = true → inBox ms (divIdx i ks) = true := by
+  intro ms
+  induction ms with
+  | nil => intro ks i hl _ h; cases ks with
+    | nil => cases i with
+      | nil => rfl
+      | cons a b => simp [mulShape, inBox] at h
+    | cons k ks => simp at hl
+  | cons m ms ih =>
+    intro ks i hl hk h
+    cases ks with
+    | nil => simp at hl
+    | cons k ks =>
+      cases i with
+      | nil => simp [mulShape, inBox] at h
+      | cons a b =>
+        rw [allPos_cons] at hk
+        simp only [mulShape, inBox, Bool.and_eq_true, decide_eq_true_eq] at h
+        simp only [divIdx, inBox, Bool.and_eq_true, decide_eq_true_eq]
+        exact ⟨(Nat.div_lt_iff_lt_mul hk.1).mpr h.1, ih ks b (by simpa using hl) hk.2 h.2⟩
+
+/-- coarsening by integer factors: a native voxel lies entirely in the data cell that contains it -/
+theorem overlapW_coarsen : ∀ (ms ks i J : List Nat), ms.length = ks.length → allPos ms = true → allPos ks = true →
+    i.length = ms.length → J.length = ms.length →
+    overlapW (mulShape ms ks) ms i J = if divIdx i ks = J then 1 else 0 := by
+  intro ms
+  induction ms with
+  | nil =>
+    intro ks i J hl _ _ hi hJ
+    cases ks with
+    | nil =>
+      have : i = [] := List.eq_nil_of_length_eq_zero (by simpa using hi)
+      have : J = [] := List.eq_nil_of_length_eq_zero (by simpa using hJ)
+      subst_vars; simp [overlapW, mulShape, divIdx]
+    | cons k ks => simp at hl
+  | cons m ms ih =>
+    intro ks i J hl hm hk hi hJ
+    cases ks with
+    | nil => simp at hl
+    | cons k ks =>
+      cases i with
+      | nil => simp at hi
+      | cons a b =>
+        cases J with
+        | nil => simp at hJ
+        | cons c e =>
+          rw [allPos_cons] at hm hk
+          simp only [mulShape, overlapW, divIdx]
+          rw [areaW_coarsen m k a c hm.1 hk.1,
+            ih ks b e (by simpa using hl) hm.2 hk.2 (by simpa using hi) (by simpa using hJ)]
+          simp only [List.cons.injEq]
+          by_cases h1 : a / k = c <;> by_cases h2 : divIdx b ks = e <;> simp [h1, h2]
+
+/-- refinement by integer factors: each data cell takes `1/Πk` of the native voxel it lies in -/
+theorem overlapW_refine : ∀ (ns ks i j : List Nat), ns.length = ks.length → allPos ns = true → allPos ks = true →
+    i.length = ns.length → j.length = ns.length →
+    overlapW ns (mulShape ns ks) i j = if divIdx j ks = i then 1 / (prodL ks : Rat) else 0 := by
+  intro ns
+  induction ns with
+  | nil =>
+    intro ks i j hl _ _ hi hj
+    cases ks with
+    | nil =>
+      have : i = [] := List.eq_nil_of_length_eq_zero (by simpa using hi)
+      have : j = [] := List.eq_nil_of_length_eq_zero (by simpa using hj)
+      subst_vars; simp [overlapW, mulShape, divIdx, prodL]
+    | cons k ks => simp at hl
+  | cons n ns ih =>
+    intro ks i j hl hn hk hi hj
+    cases ks with
+    | nil => simp at hl
+    | cons k ks =>
+      cases i with
+      | nil => simp at hi
+      | cons a b =>
+        cases j with
+        | nil => simp at hj
+        | cons c e =>
+          rw [allPos_cons] at hn hk
+          have hkq : (k : Rat) ≠ 0 := by have := hk.1; positivity
+          simp only [mulShape, overlapW, divIdx, prodL]
+          rw [areaW_refine n k a c hn.1 hk.1,
+            ih ks b e (by simpa using hl) hn.2 hk.2 (by simpa using hi) (by simpa using hj)]
+          simp only [List.cons.injEq]
+          by_cases h1 : c / k = a <;> by_cases h2 : divIdx e ks = b <;> simp [h1, h2]
+          push_cast; field_simp
+
+theorem mulShape_length (ms ks : List Nat) (h : ms.length = ks.length) : (mulShape ms ks).length = ms.length := by
+  induction ms generalizing ks with
+  | nil => cases ks <;> simp [mulShape]
+  | cons m ms ih =>
+    cases ks with
+    | nil => simp at h
+    | cons k ks => simp [mulShape, ih ks (by simpa using h)]
+
+theorem allPos_mulShape (ms ks : List Nat) (h : ms.length = ks.length) (hm : allPos ms = true) (hk : allPos ks = true) :
+    allPos (mulShape ms ks) = true := by
+  induction ms generalizing ks with
+  | nil => cases ks <;> simp [mulShape, allPos]
+  | cons m ms ih =>
+    cases ks with
+    | nil => simp at h
+    | cons k ks =>
+      rw [allPos_cons] at hm hk
+      simp only [mulShape, allPos_cons]
+      exact ⟨Nat.mul_pos hm.1 hk.1, ih ks (by simpa using h) hm.2 hk.2⟩
 
 end Darsia
